@@ -143,6 +143,10 @@ func (ex *Exec) callVal(st *State, site string, c *ssa.CallCommon, fnv Val, args
 		}
 		panic(subsetErr{"call through a symbolic function value at " + site})
 	}
+	if fnv.Fn == nil && fnv.Meta == "noop" {
+		k(st, Val{K: KUnit})
+		return
+	}
 	if fnv.Fn == nil {
 		ex.record(st, ex.rootName+"/nilfunc@"+site, "safety", "false", "call of nil function")
 		return
@@ -318,7 +322,7 @@ func (ex *Exec) modTargets(st *State, ct *Contract, e *env) []modTarget {
 	}
 	if !ct.hasMod {
 		// no modifies clause: the callee may modify the whole program heap and the output/channel/counter ghosts
-		for _, g := range []string{"F!*", "M!*", "S!*", "B!*", "V!*", "G!out*", "G!wfailed", "G!ctr*", "G!sent*", "G!recv*", "G!closed", "G!cancelled", "G!g_*", "G!cb*"} {
+		for _, g := range []string{"F!*", "M!*", "S!*", "B!*", "V!*", "G!out*", "G!wfailed", "G!writtenat", "G!ctr*", "G!sent*", "G!recv*", "G!closed", "G!cancelled", "G!g_*", "G!cb*"} {
 			out = append(out, modTarget{region: g})
 		}
 	}
@@ -332,7 +336,7 @@ func (ex *Exec) evalMod(st *State, m *node, e *env) []modTarget {
 	case "ident":
 		switch m.name {
 		case "out":
-			return []modTarget{{region: "G!out*"}, {region: "G!wfailed"}}
+			return []modTarget{{region: "G!out*"}, {region: "G!wfailed"}, {region: "G!writtenat"}}
 		case "nothing":
 			return nil
 		case "ctr":
@@ -462,6 +466,14 @@ func (ex *Exec) havocModifies(st *State, ct *Contract, e *env, pre map[string]st
 			}
 			st.assume("(forall ((i Int)) (! (=> (and (<= 0 i) (< i " + ol + ")) (= (select " + nw + " i) (select " + old + " i))) :pattern ((select " + nw + " i))))")
 		}
+		if r == "G!writtenat" {
+			ol := pre["G!out#len"]
+			if ol == "" {
+				ol = st.withHeap(pre).region("G!out#len", "Int")
+			}
+			// events already written keep their position
+			st.assume("(forall ((r Int)) (! (=> (and (> (select " + old + " r) 0) (<= (select " + old + " r) " + ol + ")) (= (select " + nw + " r) (select " + old + " r))) :pattern ((select " + nw + " r))))")
+		}
 		if strings.HasPrefix(r, "I!") || r == "G!dyn" || r == "G!wraps" || r == "G!jsonof" || strings.HasPrefix(r, "G!g_ev") {
 			st.assume("(forall ((r Int)) (! (=> (select " + a0 + " r) (= (select " + nw + " r) (select " + old + " r))) :pattern ((select " + nw + " r))))")
 		}
@@ -580,6 +592,9 @@ func (ex *Exec) loadGlobal(st *State, g *ssa.Global, path []int) Val {
 	}
 	s := scalarSort(et)
 	if s == "" {
+		if isSliceT(et) {
+			return st.freshVal("global_"+g.Name(), et) // contents of package-level slices are not tracked
+		}
 		panic(subsetErr{"composite global " + g.Name()})
 	}
 	v := term(st.region(globalRegion(g), s), et)
